@@ -480,9 +480,10 @@ class Stepper:
                 ch.strace.wait(timeout=20)
             except Exception:
                 pass
-            self._drain(i)
+            got = self._drain(i)
             self.killed.add(i)
-            self.events.append((i, {"op": "killed"}))
+            if not any(e["op"] == "killed" for e in got):      # (strace usually reports the kill itself)
+                self.events.append((i, {"op": "killed"}))
 
     def close(self):
         out = []
@@ -589,7 +590,7 @@ def stress_task(args):
     try:
         rng = random.Random("stress-%s" % json.dumps(spec, sort_keys=True))
         for rnd in range(spec["rounds"]):
-            if time.time() > deadline:
+            if time.time() > deadline and not (spec.get("mandatory") and rnd == 0):
                 break
             rwd = os.path.join(wd, "r%d" % rnd)
             fix = Fix(rwd, "%s-%d" % (spec["seed"], rnd))
@@ -623,14 +624,35 @@ def stress_task(args):
                     finally:
                         os._exit(0)
                 pids.append(pid)
-            # polling readers in this process: every successful open must yield a complete artifact, always the same
+            # polling readers (this process + forked ones): every successful open must yield a complete artifact,
+            # and always the same one
+            stop = os.path.join(rwd, "stop")
+            rpids = []
+            for k in range(spec.get("readers", 4) - 1):
+                pid = os.fork()
+                if pid == 0:
+                    try:
+                        T._die_with_parent()
+                        w = DestWatch(dest, payloads)
+                        cnt = 0
+                        while not os.path.exists(stop):
+                            w.check("polling reader %d in round %d" % (k + 1, rnd))
+                            cnt += 1
+                            time.sleep(0.0003)
+                        w.check("polling reader %d at the end of round %d" % (k + 1, rnd))
+                        with open(os.path.join(rwd, "rd%d" % k), "w") as f:
+                            json.dump({"findings": w.findings, "reads": cnt, "first": w.first and w.first["sha"]}, f)
+                    finally:
+                        os._exit(0)
+                rpids.append(pid)
             watch = DestWatch(dest, payloads)
             open(go, "w").close()
             left = set(pids)
-            t_end = max(time.time() + 20, min(deadline + 10, time.time() + 60))
+            t_end = time.time() + 90
             while left and time.time() < t_end:
                 watch.check("reader poll in round %d" % rnd)
                 out["reads"] += 1
+                time.sleep(0.0002)
                 for pid in list(left):
                     p, st = os.waitpid(pid, os.WNOHANG)
                     if p == pid:
@@ -638,6 +660,20 @@ def stress_task(args):
             for pid in left:
                 os.kill(pid, signal.SIGKILL)
                 os.waitpid(pid, 0)
+            open(stop, "w").close()
+            for k, pid in enumerate(rpids):
+                os.waitpid(pid, 0)
+                try:
+                    rr = json.load(open(os.path.join(rwd, "rd%d" % k)))
+                except Exception:
+                    continue
+                out["reads"] += rr["reads"]
+                for f in rr["findings"]:
+                    watch._add(f["what"], f["signature"])
+                if rr["first"] and watch.first is None:
+                    watch.check("after the readers of round %d" % rnd)
+                if rr["first"] and watch.first and rr["first"] != watch.first["sha"]:
+                    watch._add("two readers found different artifacts under the same name", "artifact-replaced")
             watch.check("after round %d" % rnd)
             res = []
             for i in range(n + nm):
@@ -645,12 +681,15 @@ def stress_task(args):
                     res.append(json.load(open(os.path.join(rwd, "res%d" % i)))["res"])
                 except Exception:
                     res.append(None)
-            if watch.first is None:
+            timed_out = bool(left) or any(r is None for r in res)
+            if timed_out:
+                out["timeouts"] = out.get("timeouts", 0) + 1      # machine too slow: no verdict on the results of this round
+            elif watch.first is None:
                 watch._add("no uploader published although all ran fault free: %r" % (res,), "upload-does-not-publish")
             elif any(r not in ("ok", "skipped") for r in res):
                 watch._add("fault free concurrent upload reported %r" % (res,), "concurrent-upload-fails")
             leftovers = [p for p in scan(root) if p != dest]
-            if leftovers:
+            if leftovers and not timed_out:
                 watch._add("temporary files left behind by fault free uploads: %r" % ([os.path.basename(p) for p in leftovers][:4],),
                            "tmp-left-behind")
             for f in watch.findings:
@@ -1177,7 +1216,7 @@ def oracle(ctx):
     # ---- (3) free running stress
     nst = ctx.scale(8, 48)
     items = [({"mode": "stress", "seed": ctx.seed * 100 + i, "rounds": ctx.scale(3, 25), "uploaders": 2 + i % 7,
-               "mirrors": i % 2, "sizes": [300, 15000, 80000, 400000][:3 + (ctx.tier != "quick")]},
+               "mirrors": i % 2, "sizes": [300, 15000, 80000, 400000][:3 + (ctx.tier != "quick")], "mandatory": i < 2},
               os.path.join(ctx.tmp, "x%03d" % i), at(0.97)) for i in range(nst)]
     for out in ctx.parallel(stress_task, items, workers=max(2, min(8, (os.cpu_count() or 4) // 2))):
         if out["skipped"]:
@@ -1185,6 +1224,8 @@ def oracle(ctx):
         for _ in range(out["rounds"]):
             ctx.case(("stress", out["spec"], _), nontrivial=True)
         ctx.count("stress", "rounds", out["rounds"])
+        if out.get("timeouts"):
+            ctx.count("stress", "rounds-without-verdict(timeout)", out["timeouts"])
         ctx.count("stress", "reader_polls", out["reads"])
         for w, c in out["winners"].items():
             ctx.count("stress_winner", w, c)
